@@ -61,6 +61,8 @@ val firstn : nat -> 'a1 list -> 'a1 list
 
 val skipn : nat -> 'a1 list -> 'a1 list
 
+val repeat : 'a1 -> nat -> 'a1 list
+
 type positive =
 | XI of positive
 | XO of positive
@@ -941,3 +943,19 @@ val sort_json : json -> bytes
 val sign_doc : bytes -> bytes -> bytes -> json -> json -> json
 
 val sign_bytes : bytes -> bytes -> bytes -> json -> json -> bytes
+
+val udigits : nat -> z -> bytes
+
+val big_text : z -> bytes
+
+val zeros : nat -> bytes
+
+val dec_to_text : z -> bytes
+
+val is_digit0 : n -> bool
+
+val dvalue : z -> bytes -> z option
+
+val split_dot : bytes -> bytes -> bytes list
+
+val text_to_dec : bytes -> z option
